@@ -128,6 +128,7 @@ type FnTrans struct {
 	curState *BState
 	curEnv   *Env
 	idxCands []Val
+	pureKnown, pureVal bool
 	storeSites map[*ssa.Store][]string
 	missingSites []SiteDecl
 	floatUsed bool
